@@ -58,6 +58,8 @@ class Ranger:
             return e[1]
         if k == "cast":
             return e[1]
+        if k == "len":
+            return "u32"
         if k == "call":
             fn = self.f.fns.get(e[1])
             if fn:
@@ -108,6 +110,17 @@ class Ranger:
                     lo = kk if lo is None else max(lo, kk)
                 elif op == "Eq":
                     lo, hi = kk, kk
+                elif op == "Ne":
+                    # excluding an end point shrinks the interval
+                    if lo is None or hi is None:
+                        tr = type_range(self.type_of(e) or "")
+                        if tr:
+                            lo = tr[0] if lo is None else lo
+                            hi = tr[1] if hi is None else hi
+                    if lo is not None and lo == kk:
+                        lo = kk + 1
+                    if hi is not None and hi == kk:
+                        hi = kk - 1
                 if lo is not None and hi is not None:
                     b = (lo, hi)
                 elif b is None and (lo is not None or hi is not None):
